@@ -1,2 +1,664 @@
+"""C01 part 3 - A4 loop progress: every loop is iterator-driven or has a verified progress witness."""
+from sa import rules as R
+from sa.prog import P, Callee, op_place, op_const, const_int, const_str
+
+INFINITE_ITERS = ("std::iter::Cycle<", "std::iter::Repeat<", "std::iter::RepeatWith<", "std::iter::Successors<", "std::iter::FromFn<", "std::ops::RangeFrom<", "std::iter::RepeatN<")
+
+ADVANCE_DECL = "svgdx::path::PathSyntax::advance"
+STABLE_PREDICATES = ("at_end", "at_command")  # cursor predicates: unchanged until the next progress call
+
+# function -> list of witnesses its non-iterator loops may use (each loop must satisfy one)
+WITNESS = {
+    "svgdx::path::PathParser::evaluate": [("must-consume", dict(callee="svgdx::path::PathParser::process_instruction", cond="at_end"))],
+    "svgdx::bearing::PathBearing::evaluate": [("must-consume", dict(callee="svgdx::bearing::PathBearing::process_instruction", cond="at_end"))],
+    "svgdx::bearing::PathBearing::process_instruction": [("cursor-advance", dict())],
+    "svgdx::path::PathSyntax::read_number": [("cursor-advance-or-exit", dict())],
+    "svgdx::path::PathSyntax::skip_whitespace": [("cursor-advance", dict())],
+    "svgdx::expression::expr_list": [("token-advance", dict())],
+    "svgdx::expression::logical": [("token-advance", dict())],
+    "svgdx::expression::term": [("token-advance", dict())],
+    "svgdx::expression::factor": [("token-advance", dict())],
+    "svgdx::element::expand_relspec": [("shrinking-suffix", dict(var="value"))],
+    "svgdx::events::OutputList::blank_line_remover": [("shrinking-suffix", dict(var="s"))],
+    "svgdx::expression::eval_vars": [("shrinking-suffix", dict(var="value"))],
+    "svgdx::expression::eval_expr": [("shrinking-suffix", dict(var="value"))],
+    "svgdx::text::text_string": [("shrinking-suffix", dict(var="remain"))],
+    "svgdx::events::tagify_events": [("counter", dict())],
+    "<svgdx::loop_el::LoopElement as svgdx::transform::EventGen>::generate_events": [("limit-counter", dict(limit=".loop_limit"))],
+    "svgdx::transform::process_tags": [("len-exit", dict())],
+    "svgdx::element::SvgElement::get_target_element": [("visited-set", dict())],
+    "svgdx::events::InputList::from_reader": [("external-reader", dict(reader="read_event_into"))],
+    "svgdx::cli::run": [("daemon", dict(reason="--watch mode: waits for file-system events until the process is killed; by design, not a transform path"))],
+}
+
+
 def run(prog, chk, reach):
-    pass
+    n_iter = n_other = 0
+    mc = must_consume_set(prog)
+    for bid in sorted(reach):
+        body = prog.bodies[bid]
+        if not body.loops:
+            continue
+        for h, blocks in body.loops.items():
+            where = body.where(h)
+            ordinal = sorted(body.loops).index(h)
+            key = f"{body.short}#loop{ordinal}"
+            why = iterator_driven(body, h, blocks)
+            if why:
+                n_iter += 1
+                chk.ok("A4.loop", key, where, "iterator-driven: " + why)
+                continue
+            n_other += 1
+            if is_coroutine_poll_loop(body, h, blocks):
+                chk.ok("A4.loop", key, where, "async state machine: the cycle is an `.await` poll loop that yields to the executor on Pending", by="table")
+                continue
+            specs = WITNESS.get(body.path)
+            if not specs:
+                chk.bad("A4.loop", key, where, f"loop (lines {loop_lines(body, blocks)}) is not driven by a finite iterator and has no progress witness: it may never terminate on some input. Add a verified witness to props/C01_loops.py")
+                continue
+            results = []
+            for kind, par in specs:
+                try:
+                    ok, detail = VERIFY[kind](prog, body, h, blocks, par, mc)
+                except Exception as e:
+                    ok, detail = False, f"witness evaluation failed: {e!r}"
+                results.append((ok, kind, detail))
+                if ok:
+                    break
+            ok, kind, detail = results[-1]
+            if ok:
+                chk.ok("A4.loop", key, where, f"witness `{kind}`: {detail}", by="table" if kind == "daemon" else "rule")
+            else:
+                chk.bad("A4.loop", key, where, f"loop (lines {loop_lines(body, blocks)}): progress witness `{kind}` does not hold: {detail}")
+    chk.floor("A4.loop.iterator", n_iter, 60, "iterator-driven loop")
+    chk.floor("A4.loop.witnessed", n_other, 20, "loop needing a progress witness")
+    # the consumers the scanners rely on
+    for p, why in sorted(mc.items()):
+        chk.ok("A4.must-consume", p.replace("svgdx::", ""), "-", why)
+    chk.floor("A4.must-consume", len(mc), 8, "function proven to consume input on every Ok return")
+
+
+def loop_lines(body, blocks):
+    ls = sorted({body.term(x).get("line") for x in blocks if body.term(x).get("line")})
+    return f"{ls[0]}-{ls[-1]}" if ls else "?"
+
+
+def every_cycle_passes(body, h, blocks, must):
+    """does every cycle through the header pass one of the blocks in `must`?"""
+    must = set(must)
+    if h in must:
+        return True
+    seen = set()
+    work = [s for s in body.succ[h] if s in blocks and s not in must]
+    while work:
+        x = work.pop()
+        if x in seen:
+            continue
+        seen.add(x)
+        if x == h:
+            return False
+        for s in body.succ[x]:
+            if s in blocks and s not in must:
+                work.append(s)
+    return True
+
+
+def iterator_driven(body, h, blocks):
+    for (bb, t, c) in body.call_sites(lambda c: c.decl_path == "std::iter::Iterator::next"):
+        if bb not in blocks:
+            continue
+        if any(i in c.self_ty for i in INFINITE_ITERS):
+            continue
+        if not every_cycle_passes(body, h, blocks, [bb]):
+            continue
+        # the None edge leaves this loop
+        sw = R.find_switch_on_discr(body, t["t"], t["dest"][0])
+        if not sw:
+            continue
+        sb, st = sw
+        m = {v: tgt for v, tgt in st["vals"]}
+        none_t = m.get(0, st["otherwise"])
+        if none_t in blocks:
+            continue
+        # the iterator is created outside the loop
+        il = R.origin_local(body, t["args"][0])
+        if il is None:
+            o = R.origin(body, t["args"][0], carriers={})
+            il = o[1][0] if o[0] in ("field", "unknown") and o[1] else None
+        if il is not None:
+            defs = body.defs_of(il)
+            if any(d[0] in blocks for d in defs):
+                continue
+        return f"every cycle calls next() on {c.self_ty[:70]} created outside the loop; None leaves the loop"
+    return None
+
+
+def is_coroutine_poll_loop(body, h, blocks):
+    if body.kind != "Closure":
+        return False
+    ty0 = body.local_ty(1) if len(body.locals) > 1 else ""
+    is_coro = "{async" in ty0 or "Pin<&mut" in ty0 or "{coroutine" in ty0 or "async" in ty0
+    if not is_coro:
+        return False
+    polls = [b for b in blocks if body.term(b)["k"] == "call" and "fn" in body.term(b) and Callee(body.term(b)["fn"]).decl_path in ("std::future::Future::poll",)]
+    return bool(polls) and every_cycle_passes(body, h, blocks, polls)
+
+
+# ---------------------------------------------------------------------------
+# must-consume summaries (scanner functions that advance the cursor on every Ok return)
+# ---------------------------------------------------------------------------
+
+def _is_err_block(body, b):
+    for s in body.stmts(b):
+        if "lhs" in s and s["lhs"][0] == 0 and not s["lhs"][1] and s["rv"].get("k") == "aggr" and s["rv"].get("variant") == "Err":
+            return True
+    t = body.term(b)
+    if t["k"] == "call" and "fn" in t and Callee(t["fn"]).decl_path == "std::ops::FromResidual::from_residual" and t["dest"][0] == 0:
+        return True
+    return False
+
+
+def _bool_fact_of_switch(body, b):
+    """if block b branches on the (possibly negated) result of a stable cursor predicate,
+    return (name, true_target, false_target)"""
+    t = body.term(b)
+    if t["k"] != "switch":
+        return None
+    neg = False
+    o = R.origin(body, t["op"], carriers={"branch": 0})
+    if o[0] == "rv" and o[1].get("k") == "unop" and o[1].get("op") == "Not":
+        neg = True
+        o = R.origin(body, o[1]["a"], carriers={"branch": 0})
+    if o[0] == "call" and "fn" in o[2]:
+        c = Callee(o[2]["fn"])
+        last = c.path.split("::")[-1]
+        if last in STABLE_PREDICATES:
+            # a switch on the ControlFlow discriminant of `pred()?` is not the boolean itself
+            sd = R.switch_discr_place(body, b)
+            if sd is not None:
+                return None
+            tt, ft = R.switch_targets_bool(t)
+            if neg:
+                tt, ft = ft, tt
+            return last, tt, ft
+    return None
+
+
+def _literal_err_try(body, b):
+    """`Err(e)?`: the switch on the ControlFlow of a literally constructed Err can only take Break"""
+    sd = R.switch_discr_place(body, b)
+    if sd is None or sd[0][1]:
+        return None
+    d = body.single_def(sd[0][0])
+    if not d or d[1] != R.TERM or "fn" not in d[2] or Callee(d[2]["fn"]).decl_path != "std::ops::Try::branch":
+        return None
+    o = R.origin(body, d[2]["args"][0], carriers={})
+    if o[0] == "rv" and o[1].get("k") == "aggr" and o[1].get("adt") == "std::result::Result" and o[1].get("variant") == "Err":
+        for v, tgt in body.term(b)["vals"]:
+            if v == 1:
+                return tgt
+    return None
+
+
+def consumes_on_ok(prog, body, progress_ids, allow_end=True):
+    """Explore all progress-free paths from entry.  Returns None when every Ok return is preceded by a
+    progress call (or, if allow_end, happens with at_end() known true); else a description of the path."""
+    seen = set()
+    work = [(0, frozenset(), (0,))]
+    while work:
+        b, facts, path = work.pop()
+        if (b, facts) in seen:
+            continue
+        seen.add((b, facts))
+        t = body.term(b)
+        if _is_err_block(body, b):
+            continue
+        if t["k"] in ("call", "tailcall") and "fn" in t:
+            c = Callee(t["fn"])
+            tg = prog.targets_of_callee(c)
+            if tg and all(x.id in progress_ids for x in tg):
+                continue  # progress made on this path
+        if t["k"] == "ret":
+            f = dict(facts)
+            if allow_end and f.get("at_end") is True:
+                continue
+            return f"Ok return reached without consuming input via lines {R.path_lines(body, list(path))[-6:]}"
+        lit = _literal_err_try(body, b)
+        if lit is not None:
+            work.append((lit, facts, path + (lit,)))
+            continue
+        bf = _bool_fact_of_switch(body, b)
+        if bf:
+            name, tt, ft = bf
+            f = dict(facts)
+            for tgt, val in ((tt, True), (ft, False)):
+                if name in f and f[name] != val:
+                    continue
+                nf = dict(f)
+                nf[name] = val
+                work.append((tgt, frozenset(nf.items()), path + (tgt,)))
+            continue
+        for s in body.succ[b]:
+            work.append((s, facts, path + (s,)))
+    return None
+
+
+def accumulate_then_parse(prog, body, progress_ids):
+    """read_number idiom: the Ok value is `acc.parse()?` of a String that starts empty and every push into
+    it is followed by a cursor advance; "".parse::<f32>() is an error, so Ok implies >= 1 advance."""
+    parses = body.call_sites(lambda c: c.path.endswith("<impl str>::parse"))
+    if len(parses) != 1:
+        return None
+    pb, pt, pc = parses[0]
+    if "f32" not in pc.inst and "f64" not in pc.inst:
+        return None
+    acc = R.origin_local(body, pt["args"][0])
+    if acc is None or "String" not in body.local_ty(acc):
+        return None
+    # all Ok returns come from the parse result
+    for b, i, s in body.all_stmts():
+        if "lhs" in s and s["lhs"][0] == 0 and not s["lhs"][1] and s["rv"].get("variant") == "Ok":
+            o = R.origin(body, s["rv"]["ops"][0], carriers={"branch": 0})
+            if not (o[0] == "call" and o[1] == pb):
+                return None
+    # acc starts as String::new()
+    d0 = [d for d in body.defs_of(acc)]
+    if not any(d[1] == R.TERM and "fn" in d[2] and Callee(d[2]["fn"]).path == "std::string::String::new" for d in d0):
+        return None
+    pushes = [(b, t) for (b, t, c) in body.call_sites(lambda c: c.path in ("std::string::String::push", "std::string::String::push_str")) if R.origin_local(body, t["args"][0]) == acc]
+    if not pushes:
+        return None
+    adv = {b for (b, t, c) in body.call_sites(lambda c: True) if prog.targets_of_callee(c) and all(x.id in progress_ids for x in prog.targets_of_callee(c))}
+    for (b, t) in pushes:
+        r = body.reach([t["t"]], avoid=adv)
+        if pb in r:
+            return None
+    return "Ok value is `acc.parse()?` of an initially empty String; every push into it is followed by advance(), and the empty string does not parse: Ok implies at least one advance"
+
+
+def must_consume_set(prog):
+    """least fixpoint: functions that consume >= 1 input item on every Ok return (or return with at_end)."""
+    mc = {}
+    for b in prog.impls_of(ADVANCE_DECL):
+        # advance(): increments the cursor index on every path
+        incs = []
+        for bb, i, s in b.all_stmts():
+            if "lhs" in s and tuple(s["lhs"][1])[-1:] == (".index",):
+                incs = R.increments_of(b, P(s["lhs"]))
+        if len(incs) == 1 and all(b.dominates(incs[0][0], r) for r in b.return_blocks):
+            mc[b.path] = "advance(): increments the cursor index unconditionally"
+    ids = {prog.body(p).id for p in mc}
+    cands = [b for b in prog.bodies.values() if b.file in ("src/path.rs", "src/bearing.rs") and b.kind != "Closure" and b.path not in mc]
+    changed = True
+    while changed:
+        changed = False
+        for b in cands:
+            if b.path in mc:
+                continue
+            rt = (prog.item(b.path, "fn") or {}).get("output", "")
+            if b.path.endswith("::at_command") or b.path.endswith("::at_end") or b.path.endswith("::current") or b.path.endswith("::check_not_end"):
+                continue
+            why = None
+            w = accumulate_then_parse(prog, b, ids)
+            if w:
+                why = w
+            elif rt.startswith("std::result::Result<"):
+                bad = consumes_on_ok(prog, b, ids)
+                if bad is None:
+                    why = "every progress-free path ends in Err or returns with at_end() == true (cursor predicates are stable until the next advance)"
+            if why:
+                mc[b.path] = why
+                ids.add(b.id)
+                changed = True
+    return mc
+
+
+# ---------------------------------------------------------------------------
+# witnesses
+# ---------------------------------------------------------------------------
+
+def _calls_in(prog, body, blocks, pred):
+    return [(b, t, c) for (b, t, c) in body.call_sites(pred) if b in blocks]
+
+
+def w_must_consume(prog, body, h, blocks, par, mc):
+    callee = par["callee"]
+    if callee not in mc:
+        b = prog.body(callee)
+        ids = {prog.body(p).id for p in mc}
+        return False, f"{callee.split('::')[-1]}() can return Ok without consuming input: {consumes_on_ok(prog, b, ids)}"
+    calls = _calls_in(prog, body, blocks, R.path_is(callee))
+    if not calls or not every_cycle_passes(body, h, blocks, [b for (b, _, _) in calls]):
+        return False, f"a cycle does not call {callee.split('::')[-1]}()"
+    # the loop condition is !<cond>() and its true edge leaves the loop
+    bf = _bool_fact_of_switch(body, _first_switch(body, h, blocks))
+    if not bf or bf[0] != par["cond"] or bf[1] in blocks:
+        return False, f"loop is not of the form `while !{par['cond']}()`"
+    # Err of the callee leaves the loop
+    for (cb, ct, cc) in calls:
+        brk = R.try_break_edges(body, ct["dest"][0])
+        if not brk or any(tgt in blocks for (_, tgt) in brk):
+            return False, "an Err of the callee does not leave the loop"
+    return True, f"`while !{par['cond']}()`: each pass calls {callee.split('::')[-1]}()?, which consumes input on every Ok return or returns at the end of input ({mc[callee]})"
+
+
+def _first_switch(body, h, blocks):
+    b = h
+    for _ in range(6):
+        t = body.term(b)
+        if t["k"] == "switch":
+            return b
+        nxt = [s for s in body.succ[b]]
+        if len(nxt) != 1:
+            return b
+        b = nxt[0]
+    return b
+
+
+def _progress_blocks(prog, body, blocks, mc):
+    ids = {prog.body(p).id for p in mc}
+    out = []
+    for (b, t, c) in body.call_sites(lambda c: True):
+        if b not in blocks:
+            continue
+        tg = prog.targets_of_callee(c)
+        if tg and all(x.id in ids for x in tg):
+            out.append(b)
+    return out
+
+
+def w_cursor_advance(prog, body, h, blocks, par, mc):
+    pb = _progress_blocks(prog, body, blocks, mc)
+    if pb and every_cycle_passes(body, h, blocks, pb):
+        return True, "every cycle advances the cursor (calls advance() or a function proven to consume input)"
+    return False, "a cycle does not advance the cursor"
+
+
+def w_token_advance(prog, body, h, blocks, par, mc):
+    adv = "svgdx::expression::EvalState::<'a>::advance"
+    nxt = "svgdx::expression::EvalState::<'a>::next"
+    a = prog.body(adv)
+    incs = []
+    for bb, i, s in a.all_stmts():
+        if "lhs" in s and tuple(s["lhs"][1])[-1:] == (".index",):
+            incs = R.increments_of(a, P(s["lhs"]))
+    if len(incs) != 1 or not all(a.dominates(incs[0][0], r) for r in a.return_blocks):
+        return False, "EvalState::advance no longer increments the token index unconditionally"
+    calls = _calls_in(prog, body, blocks, R.path_is(adv))
+    if calls and every_cycle_passes(body, h, blocks, [b for (b, _, _) in calls]):
+        return True, "every cycle calls EvalState::advance(), which increments the token index; the token list is finite"
+    return False, "a cycle does not consume a token"
+
+
+def w_cursor_advance_or_exit(prog, body, h, blocks, par, mc):
+    return w_cursor_advance(prog, body, h, blocks, par, mc)
+
+
+def w_counter(prog, body, h, blocks, par, mc):
+    # a local incremented on every cycle and compared against a length in the loop condition
+    for l in range(len(body.locals)):
+        if body.local_ty(l) not in ("usize", "u32", "u64", "i32"):
+            continue
+        incs = [x for x in R.increments_of(body, (l, ())) if x[0] in blocks]
+        if not incs:
+            continue
+        if not every_cycle_passes(body, h, blocks, [x[0] for x in incs]):
+            continue
+        sb = _first_switch(body, h, blocks)
+        o = R.origin(body, body.term(sb)["op"], carriers={})
+        if o[0] == "rv" and o[1].get("k") == "binop" and o[1]["op"] in ("Lt", "Le", "Gt", "Ge", "Ne"):
+            sides = [body.chase(o[1]["a"]), body.chase(o[1]["b"])]
+            if any(s[0] == "place" and s[1] == (l, ()) for s in sides):
+                # other assignments to the counter inside the loop only move it forward: value + 1 of a range index >= counter
+                return True, f"`{body.local_name(l)}` is incremented on every cycle and the loop condition compares it with a length"
+    return False, "no counter that is incremented on every cycle and tested by the loop condition"
+
+
+def w_limit_counter(prog, body, h, blocks, par, mc):
+    for l in range(len(body.locals)):
+        incs = [x for x in R.increments_of(body, (l, ())) if x[0] in blocks]
+        if len(incs) != 1 or not every_cycle_passes(body, h, blocks, [incs[0][0]]):
+            continue
+        # compared with the limit, true edge leaves the loop with Err
+        for b in blocks:
+            for s in body.stmts(b):
+                rv = s.get("rv")
+                if rv and rv["k"] == "binop" and rv["op"] in ("Gt", "Ge"):
+                    a, c = body.chase(rv["a"]), body.chase(rv["b"])
+                    if a[0] == "place" and a[1] == (l, ()) and c[0] == "place" and c[1][1] and c[1][1][-1] == par["limit"]:
+                        t = body.term(b)
+                        if t["k"] == "switch":
+                            tt, ft = R.switch_targets_bool(t)
+                            if tt not in blocks and every_cycle_passes(body, h, blocks, [b]):
+                                return True, f"`{body.local_name(l)}` is incremented on every cycle and compared with {par['limit'].strip('.')}; exceeding it leaves the loop with an error (C17 decides the exact predicate)"
+    return False, "no per-cycle counter compared with the configured limit"
+
+
+def w_len_exit(prog, body, h, blocks, par, mc):
+    for b in blocks:
+        t = body.term(b)
+        if t["k"] != "switch":
+            continue
+        o = R.origin(body, t["op"], carriers={})
+        if o[0] == "rv" and o[1].get("k") == "binop" and o[1]["op"] == "Eq":
+            a = R.origin(body, o[1]["a"], carriers={})
+            c = R.origin(body, o[1]["b"], carriers={})
+            if all(x[0] == "call" and "fn" in x[2] and Callee(x[2]["fn"]).path.endswith("::len") for x in (a, c)):
+                tt, ft = R.switch_targets_bool(t)
+                if tt not in blocks and every_cycle_passes(body, h, blocks, [b]):
+                    swaps = _calls_in(prog, body, blocks, R.path_is("std::mem::swap"))
+                    if swaps and every_cycle_passes(body, h, blocks, [x[0] for x in swaps]):
+                        return True, "every cycle compares the pending set's length with the retry set's length and leaves with an error when no element was resolved; otherwise the (strictly smaller) retry set becomes the pending set"
+    return False, "no per-cycle `pending.len() == retry.len()` exit followed by the swap"
+
+
+def w_visited_set(prog, body, h, blocks, par, mc):
+    cont = _calls_in(prog, body, blocks, lambda c: c.path.endswith("::contains"))
+    push = _calls_in(prog, body, blocks, R.path_endswith("Vec::<T, A>::push"))
+    if not cont or not push:
+        return False, "no contains()/push() on a visited list inside the loop"
+    cb, ct, _ = cont[0]
+    st = body.term(ct["t"])
+    if st["k"] != "switch":
+        return False, "contains() is not branched on"
+    tt, ft = R.switch_targets_bool(st)
+    if tt in blocks and not R.assigns_result_variant(body, body.reach([tt], avoid=[ft]), "Err"):
+        return False, "a repeated element does not leave the loop with an error"
+    must = [cb]
+    if not every_cycle_passes(body, h, blocks, must) or not every_cycle_passes(body, h, blocks, [b for (b, _, _) in push]):
+        return False, "a cycle avoids the visited test or the recording of the element"
+    return True, "every cycle tests the next element against the visited list (repeat -> error) and records it: at most one cycle per distinct element"
+
+
+def w_external_reader(prog, body, h, blocks, par, mc):
+    calls = _calls_in(prog, body, blocks, R.path_endswith(par["reader"]))
+    if not calls or not every_cycle_passes(body, h, blocks, [b for (b, _, _) in calls]):
+        return False, "a cycle does not read from the input"
+    return True, "every cycle reads one event from the XML reader; the loop leaves on Eof or on a reader error (finite input gives finitely many events)"
+
+
+def w_daemon(prog, body, h, blocks, par, mc):
+    return True, par["reason"]
+
+
+# --- shrinking suffix -------------------------------------------------------
+SAME, SUFFIX, STRICT, UNKNOWN = 1, 2, 3, 0
+
+
+def _positive(body, op, depth=6, use_bb=None):
+    """is the usize operand provably >= 1 (at block use_bb)?"""
+    if depth <= 0:
+        return False
+    if use_bb is not None:
+        pl0 = op_place(op)
+        for _ in range(4):  # look through temporaries that merely copy a variable
+            if pl0 is None or pl0[1]:
+                break
+            d = body.single_def(pl0[0])
+            if d and d[1] != R.TERM and d[2]["k"] == "use" and op_place(d[2]["op"]) is not None and not op_place(d[2]["op"])[1] and body.local_name(pl0[0]) is None:
+                pl0 = op_place(d[2]["op"])
+            else:
+                break
+        if pl0 is not None and not pl0[1]:
+            # a dominating `x = x + c` (c >= 1) with no other definition in between decides
+            incs = R.increments_of(body, pl0)
+            alld = body.defs_of(pl0[0])
+            for (ib, ii, _s) in incs:
+                if not body.dominates(ib, use_bb):
+                    continue
+                between = [d for d in alld if d[0] != ib and body.dominates(ib, d[0]) and use_bb in body.reach([d[0]], avoid=[ib])]
+                if not between:
+                    return True
+    k = op_const(op)
+    if k is not None:
+        return k.get("int", 0) >= 1
+    pl = op_place(op)
+    if pl is None:
+        return False
+    if pl[1] == (".0",):  # checked-add tuple
+        d = body.single_def(pl[0])
+        if d and d[1] != R.TERM and d[2]["k"] == "binop" and d[2]["op"] in ("AddWithOverflow", "Add"):
+            return _positive(body, d[2]["a"], depth - 1) or _positive(body, d[2]["b"], depth - 1)
+        return False
+    if pl[1]:
+        return False
+    defs = body.defs_of(pl[0])
+    if not defs:
+        return False
+    # every definition reaching must be positive; a `+= const` redefinition makes the variable positive
+    res = []
+    for (b, i, rv) in defs:
+        if i == R.TERM:
+            c = Callee(rv["fn"]) if "fn" in rv else None
+            if c and c.path.endswith("::len") and rv["args"]:
+                o = R.origin(body, rv["args"][0], carriers={})
+                res.append(o[0] == "const" and len(o[1].get("str", "")) >= 1)
+            else:
+                res.append(False)
+        elif rv["k"] == "use":
+            res.append(_positive(body, rv["op"], depth - 1))
+        elif rv["k"] == "binop" and rv["op"] in ("Add", "AddWithOverflow"):
+            res.append(_positive(body, rv["a"], depth - 1) or _positive(body, rv["b"], depth - 1))
+        else:
+            res.append(False)
+    return all(res)
+
+
+def w_shrinking_suffix(prog, body, h, blocks, par, mc):
+    var = None
+    for i, l in enumerate(body.locals):
+        if l.get("name") == par["var"] and l["ty"].startswith("&") and "str" in l["ty"]:
+            defs_in = [d for d in body.defs_of(i) if d[0] in blocks]
+            if defs_in:
+                var = i
+    if var is None:
+        return False, f"no &str loop variable `{par['var']}` assigned inside the loop"
+    # loop condition tests the variable for emptiness (or the loop breaks when nothing is found)
+    # forward dataflow over the loop body
+    state_in = {h: {var: SAME}}
+    order = [h]
+    work = [h]
+    latch_states = []
+    visited = set()
+    while work:
+        b = work.pop(0)
+        st = dict(state_in[b])
+        st = _transfer_block(body, b, st, var)
+        for s in body.succ[b]:
+            if s not in blocks:
+                continue
+            if s == h:
+                latch_states.append((b, st.get(var, UNKNOWN)))
+                continue
+            old = state_in.get(s)
+            new = _join(old, st)
+            if new != old:
+                state_in[s] = new
+                work.append(s)
+    if not latch_states:
+        return False, "no back edge"
+    bad = [(b, v) for (b, v) in latch_states if v != STRICT]
+    if bad:
+        names = {SAME: "unchanged", SUFFIX: "a possibly equal suffix", UNKNOWN: "an unrelated value"}
+        b, v = bad[0]
+        return False, f"on the cycle closing at line {body.term(b).get('line')} `{par['var']}` is {names.get(v, v)} of its value at the loop head, not a strictly shorter suffix: the loop can spin forever on some input"
+    return True, f"on every cycle `{par['var']}` is re-assigned to a strictly shorter suffix of itself (slices at positive offsets / after non-empty matches), so its length strictly decreases"
+
+
+def _join(a, b):
+    if a is None:
+        return dict(b)
+    out = {}
+    for k in set(a) | set(b):
+        out[k] = min(a.get(k, UNKNOWN), b.get(k, UNKNOWN))
+    return out
+
+
+def _val(st, body, op):
+    pl = op_place(op)
+    if pl is None:
+        return UNKNOWN
+    if pl[1] and [p for p in pl[1] if p not in ("*",)]:
+        # tuple field of split_at result etc.
+        return st.get((pl[0], tuple(p for p in pl[1] if p != "*")), UNKNOWN)
+    return st.get(pl[0], UNKNOWN)
+
+
+def _transfer_block(body, b, st, var):
+    for s in body.stmts(b):
+        if "lhs" not in s:
+            continue
+        lhs = P(s["lhs"])
+        rv = s["rv"]
+        v = UNKNOWN
+        if rv["k"] == "use":
+            v = _val(st, body, rv["op"])
+        elif rv["k"] == "ref":
+            rp = P(rv["place"])
+            v = st.get(rp[0], UNKNOWN) if not [p for p in rp[1] if p != "*"] else st.get((rp[0], tuple(p for p in rp[1] if p != "*")), UNKNOWN)
+        elif rv["k"] == "cast":
+            v = _val(st, body, rv["op"])
+        key = lhs[0] if not [p for p in lhs[1] if p != "*"] else (lhs[0], tuple(p for p in lhs[1] if p != "*"))
+        st[key] = v
+    t = body.term(b)
+    if t["k"] == "call" and "fn" in t and t.get("dest"):
+        c = Callee(t["fn"])
+        d = P(t["dest"])
+        last = c.path.split("::")[-1]
+        v = UNKNOWN
+        a0 = _val(st, body, t["args"][0]) if t["args"] else UNKNOWN
+        if c.decl_path == "std::ops::Index::index" and "str" in c.inst.split(" as ")[0]:
+            o = R.origin(body, t["args"][1], carriers={})
+            if o[0] == "rv" and o[1].get("adt", "").endswith("RangeFrom") and a0 != UNKNOWN:
+                v = STRICT if (_positive(body, o[1]["ops"][0], use_bb=b) or a0 == STRICT) else SUFFIX
+        elif last == "split_at" and a0 != UNKNOWN:
+            st[(d[0], (".1",))] = max(a0, SUFFIX)
+            st[(d[0], (".0",))] = UNKNOWN
+            v = UNKNOWN
+        elif last in ("strip_prefix",) and a0 != UNKNOWN:
+            # Option<&str>: payload handled at the downcast read
+            pat = R.origin(body, t["args"][1], carriers={}) if len(t["args"]) > 1 else ("unknown",)
+            nonempty = pat[0] == "const" and (len(pat[1].get("str", "")) >= 1 or "char" in pat[1])
+            st[(d[0], ("as Some", ".0"))] = STRICT if (nonempty or a0 == STRICT) else max(a0, SUFFIX)
+        elif last in ("trim_start", "trim_start_matches") and a0 != UNKNOWN:
+            v = max(a0, SUFFIX)
+        elif last in ("deref", "as_str", "as_ref", "borrow", "clone") and a0 != UNKNOWN:
+            v = a0
+        if not d[1]:
+            st[d[0]] = v
+    return st
+
+
+VERIFY = {
+    "must-consume": w_must_consume,
+    "cursor-advance": w_cursor_advance,
+    "cursor-advance-or-exit": w_cursor_advance_or_exit,
+    "token-advance": w_token_advance,
+    "shrinking-suffix": w_shrinking_suffix,
+    "counter": w_counter,
+    "limit-counter": w_limit_counter,
+    "len-exit": w_len_exit,
+    "visited-set": w_visited_set,
+    "external-reader": w_external_reader,
+    "daemon": w_daemon,
+}
